@@ -82,9 +82,16 @@ func CreateConsensusRawMessage(message ConsensusMessage) *ConsensusRawMessage {
 	return rawMessage
 }
 
-func ToConsensusMessage(consensusMessage *ConsensusRawMessage) ConsensusMessage {
-	var message ConsensusMessage
+func ToConsensusMessage(consensusMessage *ConsensusRawMessage) (message ConsensusMessage) {
+	// content with length fields that point outside the buffer (or wrap around) makes the lazily parsing
+	// accessors panic; such content is not a message
+	defer func() {
+		if r := recover(); r != nil {
+			message = nil
+		}
+	}()
 	lhContentReader := protocol.LeanhelixContentReader(consensusMessage.Content)
+	_ = lhContentReader.String() // walk every nested field now rather than inside a handler
 
 	if lhContentReader.IsMessagePreprepareMessage() {
 		message = &PreprepareMessage{
